@@ -130,19 +130,21 @@ Record Inv (c : cfg) (all : list msg) (s : bstate) : Prop := {
   inv_cancel : b_cancelled s = true -> c_cancel_first c = false -> b_wrote s = true;
   inv_stop :
     at_stop (b_ppc s) = true ->
-    b_wrote s = true \/ b_calls s = [] \/ b_cancelled s = true
+    b_wrote s = true \/ b_calls s = [] \/ b_cancelled s = true;
+  inv_mid : b_tpc s = TMid -> c_cancel_first c = false -> b_wrote s = true
 }.
 
 Lemma inv_init c calls : Inv c calls (binit c calls).
 Proof.
   constructor; cbn; auto; try discriminate.
-  intros _. split; auto. constructor.
+  - intros _. split; auto. constructor.
+  - destruct (c_timeout c); discriminate.
 Qed.
 
 (* once written, the wire content of the batch never changes: only notifications
    are appended *)
 Ltac inv_destruct I :=
-  destruct I as [Isplit Iunw Iwr Ipc Iafter Iinact Iowner Inotif Icancel Istop]; cbn in *.
+  destruct I as [Isplit Iunw Iwr Ipc Iafter Iinact Iowner Inotif Icancel Istop Imid]; cbn in *.
 
 (* respondWithError on an unwritten buffer writes a response for every answerable
    entry of the whole batch *)
@@ -169,6 +171,10 @@ Ltac keep_written Iwr :=
 
 Ltac easy_fields Iwr :=
   constructor; cbn; auto; try discriminate; try (keep_written Iwr);
+  try (rewrite ?app_nil_r in *; auto; fail); eauto.
+
+Ltac easy_fields0 :=
+  constructor; cbn; auto; try discriminate;
   try (rewrite ?app_nil_r in *; auto; fail); eauto.
 
 Lemma inv_pstep c all s s' : Inv c all s -> pstep c s = Some s' -> Inv c all s'.
@@ -210,5 +216,101 @@ Proof.
         destruct Hk as [Hk _]; [lia|]. discriminate. }
       repeat split; auto; try lia.
       rewrite app_length in *. cbn in *. lia.
-    + match goal with |- match ?p with _ => _ end => destruct p; auto end.
-    + match goal with |- before_write ?p = false -> _ => destruct p; cbn; intros; discriminate end.
+    + match goal with |- context [if ?b then PTooLarge else PCheck] => destruct b end; cbn; auto.
+    + match goal with |- context [if ?b then PTooLarge else PCheck] => destruct b end; cbn; discriminate.
+    + match goal with |- context [if ?b then PTooLarge else PCheck] => destruct b end; cbn;
+        rewrite app_nil_r; exact Iowner.
+    + intros m' q HI. apply in_or_app. left. eauto.
+    + match goal with |- context [if ?b then PTooLarge else PCheck] => destruct b end; cbn; discriminate.
+  - (* PTooLarge *)
+    inversion H; subst; clear H. inv_destruct I.
+    unfold respond_with_error, do_write, set_ppc. cbn.
+    destruct wrote; cbn.
+    + easy_fields Iwr.
+    + destruct (Iunw eq_refl) as (-> & HR).
+      easy_fields Iwr.
+      * intros _. rewrite wr_match.
+        eexists _, (length all), []. rewrite app_nil_r.
+        repeat split; auto; try lia;
+          try (eapply respond_content; eauto; discriminate);
+          try (rewrite Isplit, app_length; lia).
+      * intros m' q HI. exfalso. eapply (wr_notif_free _ m' q). rewrite <- wr_match. exact HI.
+  - (* PStop *)
+    inversion H; subst; clear H. inv_destruct I. easy_fields Iwr.
+    destruct tp; cbn; auto; discriminate.
+  - (* PWrite *)
+    inversion H; subst; clear H. inv_destruct I.
+    unfold do_write, set_ppc. cbn. destruct wrote; cbn.
+    + easy_fields Iwr.
+    + destruct (Iunw eq_refl) as (-> & HR).
+      easy_fields Iwr.
+      * intros _. rewrite wr_match.
+        exists resp, (length done), []. rewrite app_nil_r.
+        assert (Hcalls : c_cancel_first c = false -> calls = []).
+        { intros CF. destruct (Istop eq_refl) as [?|[?|Hc]]; auto; try discriminate.
+          specialize (Icancel Hc CF). discriminate. }
+        repeat split; auto.
+        -- rewrite Isplit, firstn_app, firstn_all, Nat.sub_diag. cbn. rewrite app_nil_r. exact HR.
+        -- rewrite Isplit, app_length. lia.
+        -- destruct (c_cancel_first c) eqn:CF; auto.
+           rewrite (Hcalls eq_refl) in *. rewrite Isplit, app_length in H. cbn in H. lia.
+      * intros m' q HI. exfalso. eapply (wr_notif_free _ m' q). rewrite <- wr_match. exact HI.
+  - (* PActivate *)
+    inv_destruct I. specialize (Iafter eq_refl). subst wrote.
+    destruct (nth_error nots j) as [n|] eqn:En; inversion H; subst; clear H.
+    + easy_fields0.
+      * intros _. destruct (Iwr eq_refl) as (cnt & k & ns & -> & ? & ? & ? & ? & Hk).
+        exists cnt, k, (ns ++ activate_out n). rewrite app_assoc.
+        repeat split; auto using forallb_app_true, notifs_activate_out; destruct (Hk H3); auto.
+      * apply Forall_upd_nth; auto.
+      * intros m' q HI. apply in_app_or in HI. destruct HI as [HI|HI]; eauto.
+        apply In_activate_out in HI. subst m'.
+        pose proof (nth_error_Forall _ _ _ _ Iowner En) as Ho. cbn in Ho.
+        rewrite app_nil_r in Ho. exact Ho.
+    + easy_fields Iwr.
+  - (* PDone *) discriminate.
+Qed.
+
+Lemma inv_tstep c all s s' : Inv c all s -> tstep c s = Some s' -> Inv c all s'.
+Proof.
+  intros I H. unfold tstep in H.
+  destruct s as [calls resp wrote canc bytes pp tp nots out done]. cbn in H.
+  destruct tp; try discriminate; destruct (c_cancel_first c) eqn:CF;
+    inversion H; subst; clear H; inv_destruct I;
+    unfold respond_with_error, do_write, set_tpc, set_cancelled; cbn.
+  - (* TIdle, cancel first: cancel() *)
+    easy_fields Iwr; intros; congruence.
+  - (* TIdle, respond first *)
+    destruct wrote; cbn.
+    + easy_fields Iwr.
+    + destruct (Iunw eq_refl) as (-> & HR). easy_fields0.
+      * intros _. rewrite wr_match.
+        eexists _, (length all), []. rewrite app_nil_r.
+        repeat split; auto; try lia;
+          try (eapply respond_content; eauto; discriminate);
+          try (rewrite Isplit, app_length; lia).
+      * intros m' q HI. exfalso. eapply (wr_notif_free _ m' q). rewrite <- wr_match. exact HI.
+  - (* TMid, cancel first: respondWithError *)
+    destruct wrote; cbn.
+    + easy_fields Iwr.
+    + destruct (Iunw eq_refl) as (-> & HR). easy_fields0.
+      * intros _. rewrite wr_match.
+        eexists _, (length all), []. rewrite app_nil_r.
+        repeat split; auto; try lia;
+          try (eapply respond_content; eauto; discriminate);
+          try (rewrite Isplit, app_length; lia).
+      * intros m' q HI. exfalso. eapply (wr_notif_free _ m' q). rewrite <- wr_match. exact HI.
+  - (* TMid, respond first: cancel() *)
+    easy_fields Iwr.
+Qed.
+
+Lemma inv_estep c all i s s' : Inv c all s -> estep i s = Some s' -> Inv c all s'.
+Proof.
+  intros I H. unfold estep in H.
+  destruct s as [calls resp wrote canc bytes pp tp nots out done]. cbn in H.
+  destruct (nth_error nots i) as [n|] eqn:En; inversion H; subst; clear H.
+  inv_destruct I.
+  assert (Hact : n_activated n = true -> before_write pp = false).
+  { intros A. destruct (before_write pp) eqn:B; auto.
+    pose proof (nth_error_Forall _ _ _ _ (Iinact eq_refl) En) as Hn. cbn in Hn. congruence. }
+  easy_fields0.
